@@ -5,7 +5,7 @@
     All theorems quantify over ARBITRARY op lists from the initial state whose
     execution respects the calling protocol ([exec] returns [Some]). *)
 From Coq Require Import List Arith Bool PeanoNat Permutation.
-From Celer Require Import C02.TrackInit C02.ListLemmas C02.InvA C02.InvA2 C02.InvB C02.TrackInitProofs C02.Parents C02.Examples.
+From Celer Require Import C02.TrackInit C02.ListLemmas C02.InvA C02.InvA2 C02.InvB C02.TrackInitProofs C02.Parents C02.Drain C02.Examples.
 Import ListNotations.
 
 Theorem C02_counters_vacancies_exact : forall cfg ops s,
@@ -166,3 +166,13 @@ Theorem C02_parent_slot_stale_refuted :
     tpar ini <> tpar (str (nth p (slots s) dflt_slot)).
 Proof. exact parent_slot_stale_refuted. Qed.
 Print Assumptions C02_parent_slot_stale_refuted.
+
+(** drain_terminates, partial: proved for the non-productive outcome stream
+    (every track in flight dies without secondaries), from any reachable state;
+    [iterate cfg k] = k iterations of initialize-tracks, physics, extend-from-secondaries *)
+Theorem C02_drain_terminates_kill_all_partial : forall cfg ops s,
+  exec cfg (init_state cfg) ops = Some s -> ph s = Ready -> 1 <= n_slots cfg ->
+  exists k s', k <= 1 + length (stack s) /\ iterate cfg k s = Some s' /\
+               drained s' = true /\ c_init (cnt s') = 0 /\ c_alive (cnt s') = 0 /\ ph s' = Ready.
+Proof. exact drain_kill_all. Qed.
+Print Assumptions C02_drain_terminates_kill_all_partial.
